@@ -111,6 +111,15 @@ class Engine(ExprMixin, CallMixin, BuiltinMixin, ApplyMixin, StmtMixin, _Base):
                 st.facts.append(v.ty(sv.t) == v.cls["type"])
             if pt not in NATIVE:
                 st.facts.append(born(sv.t) == 0)
+            es = c.sorts.get(n + "[]")
+            if es:
+                f = self.elem_type_fact(sv.t, pt, es)
+                if f is not None:
+                    st.facts.append(f)
+            ks = c.sorts.get(n + "[k]")
+            if ks in NATIVE and pt == "dict":
+                kx = z3.Const("kx", v.Val)
+                st.facts.append(z3.ForAll([kx], z3.Implies(v.dhas(sv.t, kx), v.ty(kx) == v.cls[ks]), patterns=[v.dhas(sv.t, kx)]))
         st.eff = z3.IntVal(0)
         return st
 
